@@ -33,15 +33,15 @@ import (
 const LocalPath = "sim.local/pkg"
 
 const (
-	ePlainParse    = iota // decorator.Parse
-	eParseFile            // decorator.ParseFile with a caller FileSet and a parser mode
-	eManagedGoast         // Decorator with imports, goast.New()
-	eManagedGuess         // Decorator with imports, goast over guess.WithMap
-	eReuse                // one Decorator parses a good file, then the faulted one
-	eDecorateFile         // go/parser first, then decorator.DecorateFile on whatever it returned
-	eParseDir             // decorator.ParseDir on a scratch directory holding the faulted bytes
-	eDecorateNodes        // go/parser first, then decorator.Decorate on every top-level declaration separately
-	eManagedParseDir      // a Decorator with import management (goast) parsing a scratch directory
+	ePlainParse      = iota // decorator.Parse
+	eParseFile              // decorator.ParseFile with a caller FileSet and a parser mode
+	eManagedGoast           // Decorator with imports, goast.New()
+	eManagedGuess           // Decorator with imports, goast over guess.WithMap
+	eReuse                  // one Decorator parses a good file, then the faulted one
+	eDecorateFile           // go/parser first, then decorator.DecorateFile on whatever it returned
+	eParseDir               // decorator.ParseDir on a scratch directory holding the faulted bytes
+	eDecorateNodes          // go/parser first, then decorator.Decorate on every top-level declaration separately
+	eManagedParseDir        // a Decorator with import management (goast) parsing a scratch directory
 	numEntries
 )
 
